@@ -21,7 +21,13 @@ Structural clauses (necessary conditions; the path arithmetic itself is value-le
       that segment, an array/string only through the index helper with the
       segment parsed as i64; anything else is None; no iteration over the data's
       map entries; the dotted-path result is exactly the fold over the split
-      segments (no fallback lookup afterwards), split by the escape-aware splitter.
+      segments (no fallback lookup afterwards), split by the escape-aware splitter;
+  K6  the splitter is the transducer the property states (rules/splitter.py): a
+      one-flag loop over str::chars of the whole key, split at '.', in which —
+      on every path through one iteration — an escaped character is pushed as it
+      is and nothing else (flag reset), an unescaped backslash pushes nothing and
+      sets the flag, an unescaped delimiter emits and clears the segment, any
+      other character is pushed as it is; the pending segment is emitted last.
 """
 import re
 from .core import (callee_of, callee_path, strip_refs, strip_payload, show_expr, const_value, expr_mentions, op_const, edge_dominates, bool_edge, switch_edges_for_variant)
@@ -50,40 +56,8 @@ def run(ctx):
         key_adt = lookup.locals[2]["adt"]
         items = facts.items
         # ---------------- K1
-        convs = [b for b in facts.fns() if b.kind == "fn" and items.get(b.key, {}).get("output", "").startswith("std::result::Result<%s" % key_adt) and items[b.key].get("inputs") in (["serde_json::Value"], ["&serde_json::Value"])]
-        ctx.floor("KeyType conversions (%s)" % cfg, len(convs), 2)
-        mats = []
-        for cb in convs:
-            m = {}
-            u = Unit(roles, cb.key)
-            for v in facts.variants(VALUE):
-                restrict = P.specialise_unit(roles, cb.key, lambda e, a, _v=v: _v if (a == VALUE and e == ("arg", 1)) else None)
-                blocks = restrict[cb.key]
-                with cb.restricted(blocks):
-                    r = strip_refs(cb.trace(0))
-                paths = [callee_path(cb.blocks[bi]["term"]) for bi in sorted(blocks) if cb.blocks[bi]["term"]["k"] == "Call" and callee_of(cb.blocks[bi]["term"])]
-                cands = [strip_refs(x) for x in r[2]] if r[0] == "phi" else [r]
-                kinds = set()
-                for c in cands:
-                    if c[0] == "agg" and c[1].get("variant") == "Ok":
-                        k = strip_refs(c[2][0])
-                        kinds.add("OK(%s)" % (k[1].get("variant") if k[0] == "agg" else "?"))
-                    elif c[0] == "agg" and c[1].get("variant") == "Err":
-                        kinds.add("ERR")
-                    elif c[0] == "call" and "from_residual" in c[1]["path"]:
-                        kinds.add("ERR")
-                    else:
-                        kinds.add("?")
-                if "serde_json::Number::as_i64" in paths:
-                    kinds.add("via as_i64")
-                m[v] = "+".join(sorted(kinds))
-            mats.append((cb, m))
-            want = {"Null": "OK(Null)", "String": "OK(String)", "Number": "ERR+OK(Number)+via as_i64", "Bool": "ERR", "Array": "ERR", "Object": "ERR"}
-            for v, got in m.items():
-                ctx.check(got == want[v], "K1.key-typing", "%s: %s key (%s)" % (cb.key.split("::", 1)[1], v, cfg), "a %s key is typed as %s; expected %s" % (v, got, want[v]), where=cb.where(), fn=cb.key, nontrivial=True,
-                          sample={"conversion": cb.key, "kind": v, "outcome": got})
-        if len(mats) >= 2:
-            ctx.check(all(m == mats[0][1] for _, m in mats), "K1.siblings", "both KeyType conversions agree (%s)" % cfg, "the conversions from Value and &Value type keys differently", where=convs[0].where(), nontrivial=True)
+        from .c12 import key_typing
+        key_typing(ctx, facts, roles, key_adt, cfg, "K1")
 
         # ---------------- K2
         helpers = [b for b in facts.fns() if b.kind == "fn" and len(items.get(b.key, {}).get("inputs", [])) == 2 and items[b.key]["inputs"][1] == "i64" and items[b.key]["inputs"][0].startswith("&[") and items[b.key]["output"].startswith("std::option::Option<&")]
@@ -275,11 +249,76 @@ def run(ctx):
                 it = fold[2][0]
                 split = expr_mentions(it, lambda x: x[0] == "call" and x[1] and x[1]["local"] and items.get(x[1]["key"], {}).get("output") == "std::vec::Vec<std::string::String>")
                 ctx.check(split, "K5.split", "segments come from the escape-aware splitter (%s)" % cfg, "the fold iterates %s" % show_expr(it)[:100], where=w.where(), fn=w.key)
+                split_transducer(ctx, facts, w, it, cfg)
                 seed = strip_refs(fold[2][1])
                 ctx.check(seed[0] == "agg" and seed[1].get("variant") == "Some", "K5.seed", "the walk starts at the entire data (%s)" % cfg, "fold seed %s" % show_expr(seed)[:80], where=w.where(), fn=w.key)
                 clos = strip_refs(fold[2][2])
                 if clos[0] == "agg" and clos[1].get("agg") == "Closure":
                     step_matrix(ctx, facts, roles, facts.body(clos[1]["closure"]), helper, cfg)
+
+
+def split_transducer(ctx, facts, w, it, cfg):
+    """K6 — the splitter is the escape transducer the property states (rules/splitter.py)."""
+    from .splitter import Transducer, expected
+    items = facts.items
+    found = []
+    expr_mentions(it, lambda x: found.append(x) or False if (x[0] == "call" and x[1] and x[1]["local"] and items.get(x[1]["key"], {}).get("output") == "std::vec::Vec<std::string::String>") else False)
+    if not found:
+        return
+    call = found[0]
+    sb = facts.body(call[1]["key"])
+    ins = items[sb.key].get("inputs", [])
+    chars = [i + 1 for i, t in enumerate(ins) if t == "char"]
+    strs = [i + 1 for i, t in enumerate(ins) if t == "&str"]
+    ctx.need(len(chars) == 1 and len(strs) == 1, "splitter signature (&str, char) → Vec<String> not recognised: %s" % ins)
+    darg = chars[0]
+    # the walker splits at '.'
+    d = strip_refs(call[2][darg - 1])
+    ctx.check(d[0] == "const" and const_value(d[1]) == ".", "K6.delimiter", "the path is split at '.' (%s)" % cfg, "the walker splits at %s" % show_expr(d), where=w.where(), fn=w.key, nontrivial=True)
+    src = strip_refs(call[2][strs[0] - 1])
+    ctx.check(expr_mentions(src, lambda x: x == ("arg", 2)) and not expr_mentions(src, lambda x: x[0] == "call" and x[1] and not re.search(r"as_ref$|as_str$|deref$|borrow$", x[1]["path"])), "K6.whole-key", "the whole key text is split (%s)" % cfg, "the walker splits %s" % show_expr(src)[:80], where=w.where(), fn=w.key)
+    tr = Transducer(sb)
+    ie = tr.iter_expr
+    plain = not expr_mentions(ie, lambda x: x[0] == "call" and x[1] and not re.search(r"(::chars|IntoIterator>::into_iter|::by_ref)$", x[1]["path"]))
+    ctx.check(tr.next_path.startswith("<std::str::Chars") and plain and expr_mentions(ie, lambda x: x == ("arg", strs[0])), "K6.by-character", "the splitter walks the characters of its input in order (%s)" % cfg,
+              "the splitter iterates %s via %s" % (show_expr(ie)[:100], tr.next_path), where=sb.where(), fn=sb.key, nontrivial=True)
+    ctx.check(tr.flag_init == {False}, "K6.initial-state", "the escape flag starts cleared (%s)" % cfg, "the escape flag is initialised with %s" % sorted(map(str, tr.flag_init)), where=sb.where(), fn=sb.key, nontrivial=True)
+    classes = {}
+    for decisions, effects, flagw in tr.paths:
+        c = tr.classify(decisions, darg)
+        if c == "infeasible":
+            continue
+        flag, bs, dl, opaque = c
+        want = expected(flag, bs, dl)
+        label = {(True,): "escaped character"}.get((flag,)) if flag else ("backslash" if bs else ("delimiter" if dl else "ordinary character")) if want else "undecided(flag=%s, backslash=%s, delimiter=%s)" % (flag, bs, dl)
+        pushes = [e[1] for e in effects if e[0] == "push"]
+        emits = [e for e in effects if e[0] == "emit"]
+        clears = [e for e in effects if e[0] == "clear"]
+        others = [e for e in effects if e[0] in ("call", "shrink", "leaves")]
+        final = flagw[-1] if flagw else flag
+        got = (pushes, len(emits), final)
+        key = label
+        if want is None:
+            ctx.fail("K6.transducer", "%s|path with undecided class" % sb.key.split("::", 1)[1], "an iteration path of the splitter does not determine (escape flag, backslash?, delimiter?): %s with effects %s" % (label, effects), where=sb.where(), fn=sb.key)
+            continue
+        ok = got == want and not others and not opaque
+        if want[1] == 1:
+            ok = ok and len(clears) == 1 and emits[0][1] is not None and emits[0][1][0] in ("clone", "taken") and emits[0][1][1] == clears[0][-1]
+        else:
+            ok = ok and not clears
+        classes.setdefault(key, []).append(ok)
+        if not ok:
+            ctx.fail("K6.transducer", "%s|%s" % (sb.key.split("::", 1)[1], key),
+                     "splitter, %s: pushes %s, emits %d segment(s), clears %d, leaves the flag %s%s%s; the property demands pushes %s, %d emitted, flag %s" % (key, pushes, len(emits), len(clears), final,
+                     (", under extra conditions %s" % opaque) if opaque else "", (", also %s" % others) if others else "", want[0], want[1], want[2]), where=sb.where(), fn=sb.key)
+    for key in ("escaped character", "backslash", "delimiter", "ordinary character"):
+        if key not in classes:
+            ctx.fail("K6.transducer", "%s|%s missing" % (sb.key.split("::", 1)[1], key), "the splitter has no iteration path for the case: %s" % key, where=sb.where(), fn=sb.key)
+        elif all(classes[key]):
+            ctx.ok("K6.transducer", "splitter, %s: %d path(s) as the property states (%s)" % (key, len(classes[key]), cfg), nontrivial=True)
+    ctx.count("splitter iteration paths (%s)" % cfg, len(tr.paths))
+    ctx.floor("splitter iteration paths (%s)" % cfg, len(tr.paths), 4)
+    ctx.check(any(e[1] is not None and e[1][0] == "moved" or (e[1] is not None and e[1][0] in ("clone", "taken")) for e in tr.tail_emits), "K6.last-segment", "the pending segment is emitted after the loop (%s)" % cfg, "no emission of the pending segment after the loop", where=sb.where(), fn=sb.key)
 
 
 def step_matrix(ctx, facts, roles, cb, helper, cfg):
